@@ -406,4 +406,63 @@ theorem pause_worker_exec (L : Layout) (fuel : Nat) (env : Env) (inp : List Val)
       · rcases hR with ⟨rfl, rfl⟩ | ⟨rfl, rfl⟩ <;>
           simp_all [PausePost, tlr_cons, tlr_append, absEvT, tstep, K.cont, Ctl.afterLoop]
 
+/-! ## `urcu_workqueue_resume_worker(workqueue)` -/
+
+/-- body of the loop `while ((uatomic_read(&workqueue->flags) & URCU_WORKQUEUE_PAUSED) != 0) poll(NULL, 0, 1)` -/
+def resumeBody : Stmt := (firstLoop Gen.Src.«urcu_workqueue_resume_worker»).getD .skip
+
+theorem resume_body (L : Layout) (fuel : Nat) (env : Env) (inp : List Val) (pc : TPc)
+    (hI : env.vars "workqueue" = some (.ptr L.W) ∧ FlagLoopInp inp ∧ pc = .rWait) :
+    ∃ o, exec fuel resumeBody env inp = .ok o ∧ ∃ pc', tlr L pc o.events = some pc' ∧
+      (if o.ctl.goesOn then o.env.vars "workqueue" = some (.ptr L.W) ∧ FlagLoopInp o.inp ∧ pc' = .rWait
+       else (o.ctl = .brk ∧ pc' = .idle) ∨ (o.ctl = .blocked ∧ pc' = .rWait)) := by
+  obtain ⟨hw, hi, rfl⟩ := hI
+  cases inp with
+  | nil =>
+    wexec [resumeBody, firstLoop, Gen.Src.«urcu_workqueue_resume_worker», tlr, trun, Ctl.goesOn]
+  | cons f rest =>
+    cases rest with
+    | nil =>
+      obtain ⟨n, rfl⟩ := hi
+      by_cases hb : bit n 8 = true <;>
+        wexec [resumeBody, firstLoop, Gen.Src.«urcu_workqueue_resume_worker», tlr, trun, Ctl.goesOn, absEvT, tstep, hb]
+    | cons p rest =>
+      obtain ⟨⟨n, rfl⟩, hi⟩ := hi
+      by_cases hb : bit n 8 = true <;>
+        wexec [resumeBody, firstLoop, Gen.Src.«urcu_workqueue_resume_worker», tlr, trun, Ctl.goesOn, absEvT, tstep, hb]
+
+/-- well-typed oracle: result of `uatomic_and` (ignored), the poll loop -/
+def ResumeInp : List Val → Prop
+  | [] => True
+  | _ :: rest => FlagLoopInp rest
+
+/-- from L2's `holding`: `rAnd ;` stutter loads `; rSee`.  A completed call is at `idle`: PAUSED was seen clear. -/
+def ResumePost (L : Layout) (out : Out) : Prop :=
+  ∃ pc', tlr L .holding out.events = some pc' ∧
+    ((out.ctl = .blocked ∧ (pc' = .holding ∨ pc' = .rWait)) ∨ (out.ctl = .fuel ∧ pc' = .rWait) ∨
+     (out.ctl = .normal ∧ pc' = .idle))
+
+theorem resume_worker_exec (L : Layout) (fuel : Nat) (env : Env) (inp : List Val)
+    (hw : env.vars "workqueue" = some (.ptr L.W)) (hi : ResumeInp inp) :
+    ∃ out, exec fuel Gen.Src.«urcu_workqueue_resume_worker» env inp = .ok out ∧ ResumePost L out := by
+  rw [show Gen.Src.«urcu_workqueue_resume_worker» = Stmt.seq _ (.loop resumeBody) from rfl]
+  cases inp with
+  | nil => wexec [ResumePost, tlr, trun]
+  | cons u rest =>
+    simp only [ResumeInp] at hi
+    wexec []
+    obtain ⟨out, ho, evs, pc2, hev, hl, hfin⟩ :=
+      iterate_inv' (tlr L) (tlr_nil L) (tlr_append L) (exec fuel resumeBody)
+        (fun env inp pc => env.vars "workqueue" = some (.ptr L.W) ∧ FlagLoopInp inp ∧ pc = .rWait)
+        (fun c _ _ pc => (c = .brk ∧ pc = .idle) ∨ (c = .blocked ∧ pc = .rWait))
+        (resume_body L fuel) fuel env rest .rWait [] ⟨hw, hi, rfl⟩
+    rcases out with ⟨oev, oen, oip, octl⟩
+    simp only [List.nil_append] at hev
+    subst hev
+    simp only [ho]
+    rcases hfin with ⟨rfl, -, -, rfl⟩ | ⟨c, -, hR, rfl⟩
+    · simp_all [ResumePost, tlr_cons, tlr_append, absEvT, tstep]
+    · rcases hR with ⟨rfl, rfl⟩ | ⟨rfl, rfl⟩ <;>
+        simp_all [ResumePost, tlr_cons, tlr_append, absEvT, tstep, Ctl.afterLoop]
+
 end UrcuVerif.Src.WqR
